@@ -273,9 +273,14 @@ func c10Stale(c *core.Ctx, d c10Decoder, r *core.RNG, mode int) {
 	reused, fresh := d.newv(), d.newv()
 	var e0, e1, e2 error
 	c.Eval(3)
-	if p, _ := core.Guard(func() { e0 = d.dec(reused, append([]byte{}, b1...)) }); p || e0 != nil {
+	if mode%8 >= 6 && len(b1) > 1 {
+		// the earlier use of the value is a decode that failed half-way (truncated input)
+		b1 = b1[:1+r.Intn(len(b1)-1)]
+	}
+	if p, _ := core.Guard(func() { e0 = d.dec(reused, append([]byte{}, b1...)) }); p {
 		return
 	}
+	_ = e0 // a failed first decode is an earlier use like any other
 	// a caller that kept the first result by value (kept := *v) before decoding the next input
 	// into the same variable: what it kept is a decoded value like any other
 	kept := reflect.New(reflect.TypeOf(reused).Elem())
